@@ -9,10 +9,10 @@ pre-order index `pre.length`.
 namespace JsonVerif
 open JValue
 
-theorem preL_eq (xs : List JValue) : preL xs = (xs.map preV).flatten := by
+theorem poL_eq (xs : List JValue) : poL xs = (xs.map preV).flatten := by
   induction xs with
-  | nil => simp [preL]
-  | cons x xs ih => simp [preL, ih]
+  | nil => simp [poL]
+  | cons x xs ih => simp [poL, ih]
 
 mutual
 theorem preV_length : ∀ v : JValue, (preV v).length = v.frags
@@ -20,14 +20,14 @@ theorem preV_length : ∀ v : JValue, (preV v).length = v.frags
   | .bool _ => rfl
   | .number _ => rfl
   | .string _ => rfl
-  | .array xs => by simp [preV, frags, preL_length xs]; omega
-  | .object es => by simp [preV, frags, preM_length es]; omega
-theorem preL_length : ∀ xs : List JValue, (preL xs).length = fragsL xs
+  | .array xs => by simp [preV, frags, poL_length xs]; omega
+  | .object es => by simp [preV, frags, poM_length es]; omega
+theorem poL_length : ∀ xs : List JValue, (poL xs).length = fragsL xs
   | [] => rfl
-  | x :: xs => by simp [preL, fragsL, preV_length x, preL_length xs]
-theorem preM_length : ∀ es : List (Key × JValue), (preM es).length = fragsM es
+  | x :: xs => by simp [poL, fragsL, preV_length x, poL_length xs]
+theorem poM_length : ∀ es : List (Key × JValue), (poM es).length = fragsM es
   | [] => rfl
-  | (k, v) :: es => by simp [preM, fragsM, preV_length v, preM_length es]; omega
+  | (k, v) :: es => by simp [poM, fragsM, preV_length v, poM_length es]; omega
 end
 
 mutual
@@ -118,8 +118,8 @@ theorem objectMapped_eq (cm : List CMEntry) (es : List (Key × JValue)) (pre pos
   simpa using this
 
 -- the fragments found at those offsets
-theorem preL_offsets : ∀ (xs : List JValue) (T pre post : List Frag),
-    T = pre ++ preL xs ++ post →
+theorem poL_offsets : ∀ (xs : List JValue) (T pre post : List Frag),
+    T = pre ++ poL xs ++ post →
       (offsetsL pre.length xs).map (fun i => T[i]?) = xs.map (fun x => some (Frag.value x))
   | [], _, _, _, _ => rfl
   | x :: xs, T, pre, post, h => by
@@ -127,9 +127,9 @@ theorem preL_offsets : ∀ (xs : List JValue) (T pre post : List Frag),
     have hx : ∃ t, preV x = Frag.value x :: t := by cases x <;> simp [preV]
     obtain ⟨t, ht⟩ := hx
     have h0 : T[pre.length]? = some (Frag.value x) := by
-      rw [h]; simp [preL, ht]
+      rw [h]; simp [poL, ht]
     have hlen : (pre ++ preV x).length = pre.length + x.frags := by simp [preV_length]
-    have := preL_offsets xs T (pre ++ preV x) post (by rw [h]; simp [preL])
+    have := poL_offsets xs T (pre ++ preV x) post (by rw [h]; simp [poL])
     rw [hlen] at this
     rw [h0, this]
 
@@ -153,44 +153,44 @@ theorem getFragment_eq : ∀ (v : JValue) (i : Nat),
     rw [getFragmentM_eq es i]
     split <;> simp <;> omega
 theorem getFragmentL_eq : ∀ (xs : List JValue) (i : Nat),
-    getFragmentL xs i = if h : i < (preL xs).length then .inl ((preL xs)[i]) else .inr (i - (preL xs).length)
-  | [], i => by simp [getFragmentL, preL]
+    getFragmentL xs i = if h : i < (poL xs).length then .inl ((poL xs)[i]) else .inr (i - (poL xs).length)
+  | [], i => by simp [getFragmentL, poL]
   | x :: xs, i => by
-    simp only [getFragmentL, preL, List.length_append]
+    simp only [getFragmentL, poL, List.length_append]
     rw [getFragment_eq x i]
     by_cases h1 : i < (preV x).length
-    · have : i < (preV x).length + (preL xs).length := by omega
+    · have : i < (preV x).length + (poL xs).length := by omega
       simp [h1, this, List.getElem_append_left h1]
     · simp only [h1, ↓reduceDIte]
       rw [getFragmentL_eq xs (i - (preV x).length)]
-      by_cases h2 : i - (preV x).length < (preL xs).length
-      · have : i < (preV x).length + (preL xs).length := by omega
+      by_cases h2 : i - (preV x).length < (poL xs).length
+      · have : i < (preV x).length + (poL xs).length := by omega
         simp only [h2, this, ↓reduceDIte]
         rw [List.getElem_append_right (by omega)]
-      · have : ¬ i < (preV x).length + (preL xs).length := by omega
+      · have : ¬ i < (preV x).length + (poL xs).length := by omega
         simp only [h2, this, ↓reduceDIte]
         congr 1; omega
 theorem getFragmentM_eq : ∀ (es : List (Key × JValue)) (i : Nat),
-    getFragmentM es i = if h : i < (preM es).length then .inl ((preM es)[i]) else .inr (i - (preM es).length)
-  | [], i => by simp [getFragmentM, preM]
+    getFragmentM es i = if h : i < (poM es).length then .inl ((poM es)[i]) else .inr (i - (poM es).length)
+  | [], i => by simp [getFragmentM, poM]
   | (k, x) :: es, i => by
     match i with
-    | 0 => simp [getFragmentM, preM]
-    | 1 => simp [getFragmentM, preM]
+    | 0 => simp [getFragmentM, poM]
+    | 1 => simp [getFragmentM, poM]
     | j + 2 =>
-      simp only [getFragmentM, preM, List.cons_append, List.length_cons, List.length_append,
+      simp only [getFragmentM, poM, List.cons_append, List.length_cons, List.length_append,
         Nat.add_lt_add_iff_right]
       rw [getFragment_eq x j]
       by_cases h1 : j < (preV x).length
-      · have : j < (preV x).length + (preM es).length := by omega
+      · have : j < (preV x).length + (poM es).length := by omega
         simp [h1, this, List.getElem_append_left h1]
       · simp only [h1, ↓reduceDIte]
         rw [getFragmentM_eq es (j - (preV x).length)]
-        by_cases h2 : j - (preV x).length < (preM es).length
-        · have : j < (preV x).length + (preM es).length := by omega
+        by_cases h2 : j - (preV x).length < (poM es).length
+        · have : j < (preV x).length + (poM es).length := by omega
           simp only [h2, this, ↓reduceDIte, List.getElem_cons_succ]
           rw [List.getElem_append_right (by omega)]
-        · have : ¬ j < (preV x).length + (preM es).length := by omega
+        · have : ¬ j < (preV x).length + (poM es).length := by omega
           simp only [h2, this, ↓reduceDIte]
           congr 1; omega
 end
@@ -212,11 +212,11 @@ def fragSize : Frag → Nat
 
 def stackSize (st : List Frag) : Nat := (st.map fragSize).sum
 
-theorem preM_eq (es : List (Key × JValue)) :
-    preM es = (es.map (fun e => preF (.entry e.1 e.2))).flatten := by
+theorem poM_eq (es : List (Key × JValue)) :
+    poM es = (es.map (fun e => preF (.entry e.1 e.2))).flatten := by
   induction es with
-  | nil => simp [preM]
-  | cons e es ih => obtain ⟨k, v⟩ := e; simp [preM, ih, preF]
+  | nil => simp [poM]
+  | cons e es ih => obtain ⟨k, v⟩ := e; simp [poM, ih, preF]
 
 theorem fragsL_eq (xs : List JValue) : fragsL xs = (xs.map frags).sum := by
   induction xs with
@@ -231,7 +231,7 @@ theorem fragsM_eq (es : List (Key × JValue)) : fragsM es = (es.map (fun e => 2 
 theorem preF_eq (f : Frag) : preF f = f :: (f.subs.map preF).flatten := by
   cases f with
   | value v =>
-    cases v <;> simp [preF, preV, Frag.subs, preL_eq, preM_eq, List.map_map, Function.comp_def]
+    cases v <;> simp [preF, preV, Frag.subs, poL_eq, poM_eq, List.map_map, Function.comp_def]
   | entry k v => simp [preF, Frag.subs]
   | key k => simp [preF, Frag.subs]
 
